@@ -168,13 +168,36 @@ def rule_r1(ctx: Ctx, g: CallGraph, sinks: Set[str]) -> None:
                 return False
         return True
 
+    def expansion_helper(q: str, depth: int) -> bool:
+        """a private method of an operator class that is called from nowhere but the expansion path of the same hierarchy (an
+        `expand` override, an allow-listed slow function, or another such helper): part of the expansion itself"""
+        fn_ = g.funcs.get(q)
+        if fn_ is None or fn_.cls is None or depth > 3 or not fn_.name.startswith("_") or fn_.name.startswith("__"):
+            return False
+        if not ctx.repo.is_subclass(fn_.cls, ctx.cls(SYM + ".Operator")):
+            return False
+        cs = callers.get(q, [])
+        if not cs:
+            return False
+        for cq, _node in cs:
+            cb = base_of(cq)
+            cf = g.funcs.get(cb)
+            if cf is None:
+                return False
+            if cf.name == "expand" and cf.cls is not None and ctx.repo.is_subclass(cf.cls, ctx.cls(SYM + ".Operator")):
+                continue
+            if _short(cb) in ALLOW or (cb != q and expansion_helper(cb, depth + 1)):
+                continue
+            return False
+        return True
+
     n_role = 0
     for q, why in sorted(holders.items()):
         base = base_of(q)
         fn = g.funcs.get(base)
         short = _short(base)
         is_expand_override = fn is not None and fn.name == "expand" and fn.cls is not None and ctx.repo.is_subclass(fn.cls, ctx.cls(SYM + ".Operator"))
-        allowed = short in ALLOW or is_expand_override
+        allowed = short in ALLOW or is_expand_override or expansion_helper(base, 0)
         role = False
         if not allowed:
             role = by_role(q)
